@@ -2,7 +2,7 @@
 from __future__ import annotations
 import ast
 from typing import List, Optional, Dict, Set, Tuple
-from ..model import Model, FuncInfo, own_nodes, norm_stmt, AnalysisError, AnchorError, ancestors
+from ..model import Model, FuncInfo, own_nodes, norm_stmt, AnalysisError, AnchorError, ancestors, enclosing_stmt
 from ..report import RuleResult
 from ..cfg import CFG
 from ..flow import function_defs, names_loaded, def_use_closure, find_warn_flag, test_on_name, is_warn_call, flag_typestate
@@ -114,7 +114,50 @@ def rules(model: Model, tier: str) -> List[RuleResult]:
     # of the adjoint are the formal adjoint of the forward products (shared with C11-A / C02-A)
     ADJ = RuleResult(PROP, "C01-A", "operator algebra: composed operators' _rmv is the formal adjoint of _mv (solve applies A.H)", min_instances=4)
     linopalg.adjoint_structure(model, ADJ)
-    return [W, W2, P, Wp, T, S, B, Z, N, E, _R11, SH, HF, ADJ, *_sub]
+    # sesquilinear roles: _dot conjugates its FIRST argument; within one solver a vector is either always the conjugated side or never
+    DT = RuleResult(PROP, "C01-D", "inner products: a vector keeps its side (conjugated first argument / plain second argument) in every _dot of a solver", min_instances=3)
+    _dot_roles(model, DT)
+    return [W, W2, P, Wp, T, S, B, Z, N, E, _R11, SH, HF, ADJ, DT, *_sub]
+
+
+def _dot_roles(model: Model, DT: RuleResult):
+    """<a, b> = sum conj(a) b is not symmetric for complex vectors.  The Krylov recurrences pair a fixed 'left' vector (the shadow residual
+    r0hat of BiCGSTAB, the residual of CG, the search direction) with varying right ones; a call with the two swapped is the complex
+    conjugate of the intended scalar - invisible for real systems, a wrong step length (non-convergence) for complex ones.  Belief rule:
+    inside one function a name that is the first argument of one _dot and the second argument of another (with a different partner) is
+    reported at the minority site."""
+    dotf = model.module(SOLVE_IMPL).functions.get("_dot")
+    if dotf is None:
+        raise AnchorError("_dot vanished from %s" % SOLVE_IMPL)
+    src = ast.unparse(dotf.node)
+    p0 = dotf.params()[0]
+    if "%s.conj()" % p0 not in src:
+        DT.bad(dotf, dotf.node, "_dot must conjugate its first argument (sum conj(r) z)")
+    else:
+        DT.ok(dotf.fq, "_dot(r, z) = sum conj(r) z: the first argument is the conjugated one")
+    for f in model.module(SOLVE_IMPL).functions.values():
+        if f.parent is not None:
+            continue
+        first, second = {}, {}
+        for c in own_nodes(f.node):
+            if isinstance(c, ast.Call) and isinstance(c.func, ast.Name) and c.func.id == "_dot" and len(c.args) == 2:
+                a, b = c.args
+                ta, tb = ast.unparse(a), ast.unparse(b)
+                if ta == tb:
+                    continue
+                if isinstance(a, ast.Name):
+                    first.setdefault(a.id, []).append(c)
+                if isinstance(b, ast.Name):
+                    second.setdefault(b.id, []).append(c)
+        both = sorted(set(first) & set(second))
+        if not (first or second):
+            continue
+        if not both:
+            DT.ok(f.fq, "%s: conjugated side %s, plain side %s" % (f.name, sorted(first), sorted(second)))
+        for nm in both:
+            minority = second[nm] if len(second[nm]) <= len(first[nm]) else first[nm]
+            DT.bad(f, enclosing_stmt(minority[0]), "`%s` is the conjugated (first) argument of _dot in %d call(s) and the plain (second) argument in %d: `%s` is the complex "
+                   "conjugate of the scalar the recurrence needs (wrong step for complex systems)" % (nm, len(first[nm]), len(second[nm]), ast.unparse(minority[0])))
 
 
 # ------------------------------------------------------------------------------------------------
